@@ -19,7 +19,7 @@ MANIFEST = dict(
           "library (registered smooth functions, random quadratics, adversarial 1-D oracles) and must request the same "
           "probes and return the same (ok, t) bit for bit; an independent oracle recomputes the advertised conditions "
           "from the user function at the accepted point."),
-    note=("Coq kernel + primitive floats (= IEEE binary64 of the host); translator (31 kernels, PrimFloat reading "
+    note=("Coq kernel + primitive floats (= IEEE binary64 of the host); translator (33 kernels, PrimFloat reading "
           "derived in tools/checks/c07.py); extraction (ExtrOcamlBasic, ExtrOCamlFloats); recording function_t harness + "
           "OCaml driver; 'succeeds on convex quadratics' and 't > 0' are searched, not proved."),
     technique="Coq proof over a translated+extracted PrimFloat model, bit-exact differential replay, direct oracle",
@@ -283,7 +283,7 @@ def run(tier, replay=None):
                         mism.append(l)
                 elif l.startswith("EVALB "):
                     p = l.split(" ")
-                    evalb[p[1]] = {kv.partition("=")[0]: float(kv.partition("=")[2]) if "ratio" in kv else int(kv.partition("=")[2]) for kv in p[2:]}
+                    evalb[p[1]] = {kv.partition("=")[0]: float(kv.partition("=")[2]) if kv.startswith("max_ratio") else int(kv.partition("=")[2]) for kv in p[2:]}
                 elif l.startswith("HIST "):
                     p = l.split(" ")
                     hists[p[1]] = {kv.rpartition("=")[0]: int(kv.rpartition("=")[2]) for kv in p[2:]}
@@ -318,7 +318,7 @@ def run(tier, replay=None):
             pass
     vlib.handle_coq_failure(r, cres)
     vlib.proof_coverage(r, cres, "make -C coq theories/Properties_C07.vo && coqc theories/Properties_C07.v (Print Assumptions)",
-                        ["tools/translate.py (31 kernels of state.cpp/state.h/lstep.cpp/lsearchk.cpp/morethuente.cpp/cgdescent.cpp) + structural PrimFloat reading (tools/checks/c07.py: gen_float_twin)",
+                        ["tools/translate.py (33 kernels of state.cpp/state.h/lstep.cpp/lsearchk.cpp/morethuente.cpp/cgdescent.cpp) + structural PrimFloat reading (tools/checks/c07.py: gen_float_twin)",
                          "Coq primitive floats = IEEE-754 binary64 of the host (PrimFloat.* in Print Assumptions)",
                          "extraction: ExtrOcamlBasic, ExtrOCamlFloats (coq-core.kernel Float64)",
                          "hand-written control flow of the five searches in C07_Defs.v (tied by the bit-exact replay of every run)",
